@@ -497,3 +497,26 @@ fn c12_handler_trailer_arbitrary() {
     c07_handler_case(Dechunker::Trailer, false);
     kani::cover!(true, "reached");
 }
+
+//@ props: C07 C12
+//@ tier: canary
+//@ unwind: 9|11
+//@ unwindset: c07_canary=8|10 memcmp=9|11
+//@ timeout: 1200
+//@ encodes: Dechunker::expect_crlf - canary: claims the handler never consumes anything; must be reported FAILED
+//@ vars: as c07_handler_expect_crlf
+//@ bounds: as c07_handler_expect_crlf
+//@ outside: -
+//@ clause: (wrong on purpose) expect_crlf consumes nothing
+#[kani::proof]
+fn c07_canary_crlf_consumes_nothing() {
+    let w: [u8; 4] = kani::any();
+    let l = any_le(4);
+    let mut d = Dechunker::CrLf;
+    let mut pos = Pos { index_in: 0, index_out: 0 };
+    let r = d.expect_crlf(&w[..l], &mut pos);
+    if r.is_ok() {
+        assert!(pos.index_in == 0, "C07/canary-crlf-consumes-nothing");
+    }
+    core::mem::forget(r);
+}
